@@ -383,6 +383,11 @@ CLEANUP_CORPUS = [
     # EXDATE as DATE-TIME while DTSTART is DATE
     "BEGIN:VCALENDAR\r\nVERSION:2.0\r\nPRODID:-//x//EN\r\nBEGIN:VEVENT\r\nUID:x2\r\nDTSTAMP:20200101T000000Z\r\nDTSTART;VALUE=DATE:20200102\r\n"
     "RRULE:FREQ=DAILY;COUNT=9\r\nEXDATE:20200103T100000Z\r\nEND:VEVENT\r\nEND:VCALENDAR\r\n",
+    # NOT a clean-up: zero DURATION without DTEND (VEVENT, recurring) and in a VTODO: must stay
+    "BEGIN:VCALENDAR\r\nVERSION:2.0\r\nPRODID:-//x//EN\r\nBEGIN:VEVENT\r\nUID:z2\r\nDTSTAMP:20200101T000000Z\r\nDTSTART:20200102T100000Z\r\n"
+    "DURATION:PT0S\r\nRRULE:FREQ=DAILY;COUNT=3\r\nSUMMARY:instant\r\nEND:VEVENT\r\nEND:VCALENDAR\r\n",
+    "BEGIN:VCALENDAR\r\nVERSION:2.0\r\nPRODID:-//x//EN\r\nBEGIN:VTODO\r\nUID:z3\r\nDTSTAMP:20200101T000000Z\r\nDTSTART:20200102T100000Z\r\n"
+    "DURATION:PT0S\r\nSUMMARY:instant\r\nEND:VTODO\r\nEND:VCALENDAR\r\n",
     # PHOTO data URI (InfCloud)
     "BEGIN:VCARD\r\nVERSION:3.0\r\nUID:p1\r\nFN:P\r\nN:P;;;;\r\nPHOTO;ENCODING=b;TYPE=JPEG:data:image/jpeg;base64,QUJDRA==\r\nEND:VCARD\r\n",
     # control characters
@@ -400,7 +405,11 @@ def add_cleanup_case(rng, tree, g):
             sl = list(s[1])
             names = [l[1] for l in sl]
             dts = [l for l in sl if l[1] == "DTSTART"]
-            kind = rng.choice(["zero", "exdate", "exdate"])
+            kind = rng.choice(["zero", "zero-no-end", "exdate", "exdate"])
+            if kind == "zero-no-end" and dts and not re.match(r"^\d{8}$", dts[0][3]):
+                # NOT a clean-up case: a zero DURATION without DTEND / DUE is the length of the component and stays
+                sl = [l for l in sl if l[1] not in ("DTEND", "DUE", "DURATION")] + [(None, "DURATION", (), "PT0S" if g.canonical else rng.choice(["PT0S", "P0D", "PT0M"]))]
+                g.features["duration:zero-without-dtend"] += 1
             if kind == "zero" and "DTEND" in names:
                 sl = [l for l in sl if l[1] != "DURATION"] + [(None, "DURATION", (), rng.choice(["PT0S", "P0D", "PT0H0M0S", "-PT0S", "P0W", "PT1H"]))]
                 g.features["cleanup:zero-duration"] += 1
